@@ -143,13 +143,15 @@ def run_property(prop, tier="quick", seed=0, patch=None, quiet=False, only_units
     # ------------------------------------------------------------------ Verus
     units = verus_units_for(prop)
     if units:
-        vt = treemod.snapshot("vtree" + tree_suffix)
+        # a patched (mutant / seeded) tree is private to this process: concurrent sweeps must not share it
+        vt_name = "vtree" + tree_suffix + (".%d" % os.getpid() if patch else "")
+        vt = treemod.snapshot(vt_name)
         if patch:
             r = subprocess.run(["patch", "-p1", "--no-backup-if-mismatch", "-s", "-i", patch], cwd=vt, capture_output=True, text=True)
             if r.returncode != 0:
                 raise RuntimeError("mutant does not apply: " + r.stdout + r.stderr)
         for tpl in units:
-            ur = verus.check_unit(tpl, vt, seed=None, tag=tree_suffix)
+            ur = verus.check_unit(tpl, vt, seed=None, tag=tree_suffix + (".%d" % os.getpid() if patch else ""))
             if only_units is not None and ur.unit not in only_units:
                 continue
             out["verus"].append(ur)
@@ -170,6 +172,8 @@ def run_property(prop, tier="quick", seed=0, patch=None, quiet=False, only_units
                 f2, tool2 = verus.classify(diags, ur.gen)
                 if js is None or f2 or tool2 or not js.get("verification-results", {}).get("success"):
                     out["undecided"].append((ur.unit, "unstable proof: fails with smt.random_seed=%d" % (seed + 1)))
+    if patch and units:
+        shutil.rmtree(vt, ignore_errors=True)
     out["wall"] = time.time() - t0
     return out
 
